@@ -382,25 +382,31 @@ def check(repo, tier):
             if not isinstance(res, Arr) or res.ndim != 4:
                 bad.append(f'result is not a 4-dimensional core: {res!r}')
             else:
-                stores = res.tags.get('stores', [])
                 rows = sc.lst if form == 'matrix' else [[x] for x in sc.lst]
-                want = {}
+                # entry level: core[i, a, b, j] is entry (a, b) of the matrix at list position (i, j), and 0 where the list holds a 0 -- however the core is
+                # assembled (np.zeros + stores, np.stack, np.concatenate ...)
+                from . import content
+                from .arr import SymIdx
+                Qa, Qb = SymIdx(0, res.shape[1], 'a'), SymIdx(0, res.shape[2], 'b')
+                Qa.is_query = Qb.is_query = True
+                unknown = 0
                 for i, r in enumerate(rows):
                     for j, x in enumerate(r):
+                        got = content.entry(res, [i, Qa, Qb, j])
                         if isinstance(x, Arr):
-                            want[(i, j) if form == 'matrix' else (i, 0)] = x
-                got = {}
-                for st in stores:
-                    sel = st['sel']
-                    if sel[0][0] == 'int' and sel[3][0] == 'int' and sel[1] == ('all',) and sel[2] == ('all',):
-                        v = st['value']
-                        root = v
-                        while isinstance(root, Arr) and 'element' not in root.tags and root.parents:
-                            root = root.parents[0]
-                        got[(sel[0][1], sel[3][1])] = root
-                for pos, x in want.items():
-                    if got.get(pos) is not x:
-                        bad.append(f'the matrix at list position {pos} is not stored at core[{pos[0]}, :, :, {pos[1]}]')
+                            want = ('src', (x.tags.get('element'), id(x)), (Qa, Qb))
+                            same = content.same_content(got, want)
+                            if same is None:
+                                unknown += 1
+                            elif not same:
+                                bad.append(f'the matrix at list position {(i, j) if form == "matrix" else (i, 0)} is not stored at core[{i}, :, :, {j}] (found {content.show(got)})')
+                        else:
+                            if got is None:
+                                unknown += 1
+                            elif got != ('zero',) and not (got[0] == 'num' and got[1] == 0):
+                                bad.append(f'core[{i}, :, :, {j}] holds {content.show(got)} although the list has 0 there')
+                if unknown and not bad:
+                    raise AnalysisError(f'{scen}: {unknown} blocks of the core are assembled in a way the entry analysis does not follow')
                 anyc = any(isinstance(x, Arr) and x.dt == 'complex' for r in rows for x in r)
                 if (anyc or iscomplex) and res.dt != 'complex':
                     bad.append(f'the core has dtype class {res.dt} although {"a complex element is present" if anyc else "iscomplex=True"}')
